@@ -23,7 +23,9 @@ PROPS["C17"] = {
 }
 PROPS["C08"] = {
   "engine": "sim_persist", "variant": "asan", "level": "exploration",
-  "parts": [{"args": ["--mode", "c08"]}],
+  # second part: the same engine built like the shipped library (-O2, no sanitizer): struct copies then carry
+  # padding bytes, which the -O1 ASan build copies member by member
+  "parts": [{"args": ["--mode", "c08"]}, {"variant": "plain", "args": ["--mode", "c08", "--only", "roundtrip"], "budget_quick": 30, "budget_thorough": 300}],
   "budget_quick": 90, "budget_thorough": 600,
   "rule": "one run = a generated rule set (RuleLab fragments over 1-3 namespaces, externals of all four types, global/private flags, rule references) taken through a seeded history: compile under heap layout/junk A, scan, save, scan original again, save again, load through a stream whose disk delivers at most c bytes per read, destroy the original, scan the copy; recompile under layout/junk B and compare images; stream write error at item n followed by scans and a re-save of the original; rules-level defines followed by save+load. Non-trivial = all runs (each perturbs heap layout and chunking or injects a write fault); distinct = distinct (rule set, chunk, junk, fault position).",
   "components": {"real": REAL_LIB, "stub": ["YR_STREAM read/write callbacks (chunked simulated disk, write errors)", "allocator addresses, padding and junk fill"]},
